@@ -311,13 +311,15 @@ func JoinProbe(r *lib.Rng, inDefs bool) *joinProbe {
 // JoinRegressions: the fixed programs of the stream, each as a subincluded file (optimised path) and as a BUILD file (generic path).
 func JoinRegressions() []*joinProbe {
 	S, id := aspgen.StrE, aspgen.IdE
-	join := func(sep string, comp *aspgen.Val) *aspgen.Expr { return aspgen.E(aspgen.Method(aspgen.Str(sep), "join", aspgen.E(comp))) }
+	join := func(sep string, comp *aspgen.Val) *aspgen.Expr {
+		return aspgen.E(aspgen.Method(aspgen.Str(sep), "join", aspgen.E(comp)))
+	}
 	progs := []struct {
 		kind string
 		rb   []string
 		p    aspgen.Prog
 	}{
-		{"global", []string{"name"}, aspgen.Prog{
+		{"global", []string{"name", "d"}, aspgen.Prog{ // (d: a leaked comprehension variable shows up as a NEW global)
 			aspgen.Assign("name", S("lib")), aspgen.Assign("srcs", aspgen.E(aspgen.List(S("a.go"), S("b.go")))),
 			aspgen.Assign("joined", join(" ", aspgen.Comp(id("name"), []string{"name"}, id("srcs"), nil))),
 			aspgen.Assign("flags", join(" ", aspgen.Comp(aspgen.E(aspgen.Str("-I"), aspgen.Bin("+", aspgen.Ident("d"))), []string{"d"}, aspgen.E(aspgen.List(S("a"), S("b"))), nil))),
